@@ -293,13 +293,19 @@ End BuiltinIngester.
    ErrTransformFailed is continuable, EOF and fatal errors are not. *)
 Theorem builtin_classification :
   Forall (fun reader_cont =>
-    forall c, continuable_ingester reader_cont c = true <-> (c <> RcEOF /\ c <> RcFatal))
+    forall c, c <> RcLatched ->
+      (continuable_ingester reader_cont c = true <-> (c <> RcEOF /\ c <> RcFatal)))
     all_formats.
 Proof.
   unfold all_formats.
   repeat (apply Forall_cons; [intros []; vm_compute; split; intros; intuition congruence|]).
   apply Forall_nil.
 Qed.
+
+(* The old csv reader is the only one that latches an input-I/O error instance (r.readErr);
+   that instance is not continuable. *)
+Theorem csv_latched_not_continuable : continuable_ingester continuable_csv RcLatched = false.
+Proof. reflexivity. Qed.
 
 (* Composition: what Transform.Read returns when the built-in ingester's reader reports an error,
    for every one of the seven formats: EOF and the format's fatal error come out unwrapped (the
@@ -317,7 +323,8 @@ Section BuiltinTransform.
   Notation ing_read := (ing_read R rd_step parse marshal).
   Notation ing_cont := (ing_is_cont R b_cont).
 
-  Lemma fmt_cont_spec c : orb (rc_is_failed c) (fmt_cont fmt c) = true <-> c <> RcEOF /\ c <> RcFatal.
+  Lemma fmt_cont_spec c : c <> RcLatched ->
+    (orb (rc_is_failed c) (fmt_cont fmt c) = true <-> c <> RcEOF /\ c <> RcFatal).
   Proof.
     pose proof builtin_classification as H. rewrite Forall_forall in H.
     specialize (H (fmt_cont fmt)). apply H. unfold fmt_cont. apply nth_In. exact fmt_ok.
@@ -333,7 +340,10 @@ Section BuiltinTransform.
   Proof.
     intro Hs. unfold Latch.do_read, Latch.ing_read. rewrite Hs. cbn [rd_err rd_node snd].
     unfold Latch.ing_is_cont, b_cont. cbn [i_rd].
-    pose proof (fmt_cont_spec (rcls_of fatal_ty e)) as Hc.
+    assert (Hc : orb (rc_is_failed (rcls_of fatal_ty e)) (fmt_cont fmt (rcls_of fatal_ty e)) = true
+                 <-> rcls_of fatal_ty e <> RcEOF /\ rcls_of fatal_ty e <> RcFatal).
+    { apply fmt_cont_spec. unfold rcls_of. destruct (e_cls e); try discriminate.
+      destruct (N.eqb (e_ty e) fatal_ty); discriminate. }
     assert (Hf : is_failed e = rc_is_failed (rcls_of fatal_ty e)).
     { unfold is_failed, rcls_of. destruct (e_cls e); try reflexivity.
       destruct (N.eqb (e_ty e) fatal_ty); reflexivity. }
@@ -346,6 +356,8 @@ Section BuiltinTransform.
       + exfalso. destruct Hc as [Hc _]. specialize (Hc eq_refl). tauto.
       + split; [reflexivity|]. rewrite Hf. reflexivity.
     - eexists; split; reflexivity.
+    - exfalso. unfold rcls_of in Hcls. destruct (e_cls e); try discriminate.
+      destruct (N.eqb (e_ty e) fatal_ty); discriminate.
     - destruct (fmt_cont fmt RcPlain) eqn:E.
       + eexists; split; reflexivity.
       + exfalso. destruct Hc as [_ Hc]. discriminate Hc. split; discriminate.
